@@ -241,17 +241,19 @@ func (n *normaliser) mentionsObj(node ast.Node, objs map[types.Object]bool) bool
 	return m
 }
 
-// definesSeenElsewhere: the block declares, at its top level, a name that also occurs in fd outside
-// the block (splicing would then change what a reader, and a name-keyed rule, sees), or a label.
+// definesSeenElsewhere: the block declares, at its top level, a name that elsewhere in fd (outside the
+// block) means something else - splicing would then change what a reader, and a name-keyed rule, sees -
+// or a label. The same name for the same variable (the block is an inlined body that defines a
+// variable of its caller) is no obstacle.
 func (n *normaliser) definesSeenElsewhere(fd *ast.FuncDecl, blk *ast.BlockStmt) bool {
-	names := map[string]bool{}
+	names := map[string]types.Object{}
 	for _, s := range blk.List {
 		switch x := s.(type) {
 		case *ast.AssignStmt:
 			if x.Tok == token.DEFINE {
 				for _, l := range x.Lhs {
 					if id, ok := l.(*ast.Ident); ok && n.info.Defs[id] != nil {
-						names[id.Name] = true
+						names[id.Name] = n.info.Defs[id]
 					}
 				}
 			}
@@ -264,10 +266,10 @@ func (n *normaliser) definesSeenElsewhere(fd *ast.FuncDecl, blk *ast.BlockStmt) 
 				switch sp := spec.(type) {
 				case *ast.ValueSpec:
 					for _, id := range sp.Names {
-						names[id.Name] = true
+						names[id.Name] = n.info.Defs[id]
 					}
 				case *ast.TypeSpec:
-					names[sp.Name.Name] = true
+					names[sp.Name.Name] = n.info.Defs[sp.Name]
 				}
 			}
 		case *ast.LabeledStmt:
@@ -282,10 +284,29 @@ func (n *normaliser) definesSeenElsewhere(fd *ast.FuncDecl, blk *ast.BlockStmt) 
 		if x == ast.Node(blk) {
 			return false
 		}
-		if id, ok := x.(*ast.Ident); ok && names[id.Name] {
-			seen = true
+		id, ok := x.(*ast.Ident)
+		if !ok {
+			return !seen
 		}
-		return !seen
+		mine, defined := names[id.Name]
+		if !defined {
+			return true
+		}
+		obj := n.info.Uses[id]
+		if obj == nil {
+			obj = n.info.Defs[id]
+		}
+		if obj == nil {
+			return true // a struct literal key, a label
+		}
+		if v, isVar := obj.(*types.Var); isVar && v.IsField() {
+			return true
+		}
+		if mine != nil && obj == mine {
+			return true
+		}
+		seen = true
+		return false
 	})
 	return seen
 }
@@ -307,4 +328,237 @@ func endsInJump(b *ast.BlockStmt) bool {
 		}
 	}
 	return false
+}
+
+// coalesceCopies removes `x := y` / `x = y` between two locals of the same type when y is defined
+// in the same statement list, is never looked at again, and (for `=`) x is not mentioned between
+// y's definition and the copy: y then is x from its definition on. This is what inlining
+// `x := helper()` leaves behind when the helper ends in `return y`. Neither variable may be captured
+// by a function literal or have its address taken.
+func (n *normaliser) coalesceCopies(fd *ast.FuncDecl) bool {
+	changed := false
+	for round := 0; round < 24; round++ {
+		if !n.coalesceOne(fd) {
+			break
+		}
+		changed = true
+		n.p.mutated = true
+	}
+	return changed
+}
+
+func (n *normaliser) coalesceOne(fd *ast.FuncDecl) bool {
+	// variables that escape the simple picture
+	pinned := map[types.Object]bool{}
+	var lits []*ast.FuncLit
+	ast.Inspect(fd, func(x ast.Node) bool {
+		switch y := x.(type) {
+		case *ast.FuncLit:
+			lits = append(lits, y)
+		case *ast.UnaryExpr:
+			if y.Op == token.AND {
+				if o := rootVar(n.info, y.X); o != nil {
+					pinned[o] = true
+				}
+			}
+		}
+		return true
+	})
+	for _, lit := range lits {
+		ast.Inspect(lit, func(x ast.Node) bool {
+			if id, ok := x.(*ast.Ident); ok {
+				if o := n.info.Uses[id]; o != nil {
+					pinned[o] = true
+				}
+			}
+			return true
+		})
+	}
+	done := false
+	ast.Inspect(fd.Body, func(node ast.Node) bool {
+		if done {
+			return false
+		}
+		var list []ast.Stmt
+		switch x := node.(type) {
+		case *ast.BlockStmt:
+			list = x.List
+		case *ast.CaseClause:
+			list = x.Body
+		case *ast.CommClause:
+			list = x.Body
+		default:
+			return true
+		}
+		for k, s := range list {
+			as, ok := s.(*ast.AssignStmt)
+			if !ok || (as.Tok != token.DEFINE && as.Tok != token.ASSIGN) || len(as.Lhs) != len(as.Rhs) {
+				continue
+			}
+			// a tuple copy `a, b := a1, b1` is one copy per pair as long as every right-hand side is a plain local
+			plain := true
+			for _, r := range as.Rhs {
+				if _, isID := r.(*ast.Ident); !isID {
+					plain = false
+				}
+			}
+			if !plain {
+				continue
+			}
+			for pi := range as.Lhs {
+				lid, ok1 := as.Lhs[pi].(*ast.Ident)
+				rid, ok2 := as.Rhs[pi].(*ast.Ident)
+				if !ok1 || !ok2 || lid.Name == "_" {
+					continue
+				}
+				// the other right-hand sides must not be this pair's target (a swap is not a copy)
+				swap := false
+				for oi, r := range as.Rhs {
+					if oi != pi && r.(*ast.Ident).Name == lid.Name {
+						swap = true
+					}
+				}
+				if swap {
+					continue
+				}
+				y, _ := n.info.Uses[rid].(*types.Var)
+				var x *types.Var
+				if as.Tok == token.DEFINE {
+					x, _ = n.info.Defs[lid].(*types.Var)
+				} else {
+					x, _ = n.info.Uses[lid].(*types.Var)
+				}
+				if x == nil || y == nil || x == y || x.IsField() || y.IsField() || pinned[x] || pinned[y] || !types.Identical(x.Type(), y.Type()) {
+					continue
+				}
+				if y.Pkg() == nil || y.Parent() == y.Pkg().Scope() || x.Parent() == x.Pkg().Scope() {
+					continue
+				}
+				// y's definition: a := statement of this list, before the copy
+				j := -1
+				var defID *ast.Ident
+				var defStmt *ast.AssignStmt
+				for i := 0; i < k; i++ {
+					d, ok := list[i].(*ast.AssignStmt)
+					if !ok || d.Tok != token.DEFINE {
+						continue
+					}
+					for _, l := range d.Lhs {
+						if id, ok := l.(*ast.Ident); ok && n.info.Defs[id] == types.Object(y) {
+							j, defID, defStmt = i, id, d
+						}
+					}
+				}
+				if j < 0 {
+					continue
+				}
+				// y is not looked at after the copy
+				later := false
+				ast.Inspect(fd.Body, func(z ast.Node) bool {
+					if id, ok := z.(*ast.Ident); ok && id.Pos() > as.End() && (n.info.Uses[id] == types.Object(y) || n.info.Defs[id] == types.Object(y)) {
+						later = true
+					}
+					return !later
+				})
+				if later {
+					continue
+				}
+				// `y := x; …; x = y`: y starts out as x, so only what lies between the two statements matters
+				selfCopy := false
+				if len(defStmt.Lhs) == 1 && len(defStmt.Rhs) == 1 {
+					if rid0, ok := defStmt.Rhs[0].(*ast.Ident); ok && n.info.Uses[rid0] == types.Object(x) {
+						selfCopy = true
+					}
+				}
+				if as.Tok == token.ASSIGN {
+					between := false
+					from := j
+					if selfCopy {
+						from = j + 1
+					}
+					for _, st := range list[from:k] {
+						if n.mentionsObj(st, map[types.Object]bool{x: true}) {
+							between = true
+						}
+					}
+					if between {
+						continue
+					}
+				}
+				// y becomes x
+				ast.Inspect(fd.Body, func(z ast.Node) bool {
+					id, ok := z.(*ast.Ident)
+					if !ok {
+						return true
+					}
+					if n.info.Uses[id] == types.Object(y) {
+						n.info.Uses[id] = x
+						id.Name = x.Name()
+					}
+					return true
+				})
+				defID.Name = x.Name()
+				if as.Tok == token.DEFINE {
+					n.info.Defs[defID] = x
+				} else {
+					delete(n.info.Defs, defID)
+					n.info.Uses[defID] = x
+					if len(defStmt.Lhs) == 1 {
+						defStmt.Tok = token.ASSIGN
+					}
+				}
+				if selfCopy && as.Tok == token.ASSIGN {
+					// the definition has become `x = x`
+					for di, st := range list {
+						if st == ast.Stmt(defStmt) {
+							list = append(list[:di:di], list[di+1:]...)
+							k--
+							break
+						}
+					}
+				}
+				// drop the copy
+				if len(as.Lhs) > 1 {
+					as.Lhs = append(as.Lhs[:pi:pi], as.Lhs[pi+1:]...)
+					as.Rhs = append(as.Rhs[:pi:pi], as.Rhs[pi+1:]...)
+					// what is left may define nothing new any more
+					if as.Tok == token.DEFINE {
+						anyNew := false
+						for _, l := range as.Lhs {
+							if id, ok := l.(*ast.Ident); ok && n.info.Defs[id] != nil {
+								anyNew = true
+							}
+						}
+						if !anyNew {
+							as.Tok = token.ASSIGN
+						}
+					}
+					switch x := node.(type) {
+					case *ast.BlockStmt:
+						x.List = list
+					case *ast.CaseClause:
+						x.Body = list
+					case *ast.CommClause:
+						x.Body = list
+					}
+					done = true
+					return false
+				}
+				rest := append([]ast.Stmt(nil), list[k+1:]...)
+				list = append(list[:k:k], rest...)
+				switch x := node.(type) {
+				case *ast.BlockStmt:
+					x.List = list
+				case *ast.CaseClause:
+					x.Body = list
+				case *ast.CommClause:
+					x.Body = list
+				}
+				done = true
+				return false
+			}
+		}
+		return true
+	})
+	return done
 }
